@@ -370,6 +370,48 @@ impl<P: Payload> State<P> {
         }
     }
 
+    /// An arena that already has a past: a few slots, one of them recycled `worn` times, all of them
+    /// free again.  Histories started here meet generation counters near their interesting values
+    /// (powers of two, the end of the range) in the middle of ordinary tree operations.
+    pub fn primed_worn(rng: &mut crate::rng::Rng, worn: u32, cap0: usize) -> State<P> {
+        let mut arena: Arena<P> = if cap0 == 0 { Arena::new() } else { Arena::with_capacity(cap0) };
+        let mut issued = HashSet::new();
+        let k = rng.range(1, 4);
+        let mut ids = Vec::new();
+        for _ in 0..k {
+            let id = arena.new_node(P::make(u64::MAX - 11, 0));
+            issued.insert(id);
+            ids.push(id);
+        }
+        let w = rng.below(k);
+        let mut cur = ids[w];
+        for _ in 0..worn {
+            cur.remove(&mut arena);
+            cur = arena.new_node(P::make(u64::MAX - 11, 1));
+            issued.insert(cur);
+        }
+        ids[w] = cur;
+        while !ids.is_empty() {
+            let i = rng.below(ids.len());
+            ids.swap_remove(i).remove(&mut arena);
+        }
+        let mut model = Model::new();
+        let n = arena.count();
+        model.slot_cur = vec![None; n];
+        model.recycles = vec![0; n];
+        model.recycles[w] = worn;
+        // every slot that the arena still offers is available; a slot the library has retired during
+        // priming stays in the set as well (it is beyond the retirement threshold)
+        model.avail = (0..n).collect();
+        for s in 0..n {
+            if s != w && n > k {
+                // the worn slot was retired early and the churn moved on to fresh slots: treat them as worn too
+                model.recycles[s] = worn;
+            }
+        }
+        State { arena, model, issued, steps: 0 }
+    }
+
     pub fn with_arena(arena: Arena<P>) -> State<P> {
         State {
             arena,
